@@ -32,7 +32,7 @@ RULE = ('V: convert_to_base_types on the value family (None, bool, int, NaN/+-in
         'PhaseState.as_base_types / Measurement.as_base_types / PhaseState._notify a scheduling point (random and PCT '
         'schedules), live view compared with a from-scratch rendering once both are quiet; non-trivial = distinct case')
 ASSUMPTIONS = ['json and base64 modules are trusted (text-level statements are differential only)',
-               'coordinates are ints/strings (Python equality 1 == True == 1.0 is not modelled)']
+               'coordinates are ints, strings and enum members (Python equality 1 == True == 1.0 is not modelled)']
 TRUSTED = ['harness/props/c10.py (Python value <-> token canonicaliser)', 'lean/OpenHTF/Driver/C10.lean']
 CONST_PREFIXES = ['c10.']
 PROCS = 12
@@ -142,7 +142,8 @@ def _real_measurement_case(case):
             raise
         ops_out.append(('S', op[1], mo.outcome.name))
       elif op[0] == 'D':
-        coords = tuple(op[1]) if len(op[1]) != 1 else op[1][0]
+        cs = [_pyval(c) for c in op[1]]
+        coords = tuple(cs) if len(cs) != 1 else cs[0]
         api.measurements['m'][coords] = _pyval(op[2])
         ops_out.append(('D', op[1], op[2]))
       elif op[0] == 'V':
@@ -494,7 +495,7 @@ def encode(case, obs):
       if op[0] == 'S':
         ops.append('S %s %s' % (' '.join(toks(_pyval(op[1]))), op[2]))
       elif op[0] == 'D':
-        ops.append('D %d %s %s' % (len(op[1]), ' '.join(t for c in op[1] for t in toks(c)), ' '.join(toks(_pyval(op[2])))))
+        ops.append('D %d %s %s' % (len(op[1]), ' '.join(t for c in op[1] for t in toks(_pyval(c))), ' '.join(toks(_pyval(op[2])))))
       elif op[0] == 'V':
         ops.append('V %s' % op[1])
       else:
@@ -530,7 +531,9 @@ def gen_cases(rng, tier):
       cases.append({'kind': 'V', 'v': _spec(v), 'js': js})
   # 1 == True == 1.0 and 0 == False == 0.0 compare equal but render differently
   pool = [5, 'txt', NAN, None, [1, INF], {'k': NAN}, (1, 'a'), Color.BLUE, True, 1, 1.0, [True], [1], 0, False]
-  coords = [[1], [2], ['a']]
+  # distinct coordinates whose base-type renderings coincide (an enum member and the str of its name): a cache keyed
+  # by the rendered row confuses them (seeded/C10-13)
+  coords = [[1], [2], ['a'], [_spec(Color.BLUE)], [Color.BLUE.name]]
   def rand_ops(r, dim, n):
     ops = []
     for _ in range(n):
@@ -549,6 +552,10 @@ def gen_cases(rng, tier):
   for tr in ('id', 'wrap'):
     cases.append({'kind': 'M', 'dim': True, 'transform': tr, 'ops': [['D', [1], 1], ['R'], ['D', [2], 2], ['D', [1], 3], ['R'], ['V'], ['R']]})
     cases.append({'kind': 'M', 'dim': False, 'transform': tr, 'ops': [['R'], ['S', 9], ['R'], ['S', _spec(NAN)], ['R']]})
+  for tr in ('id', 'wrap'):
+    for first, second in (([_spec(Color.BLUE)], [Color.BLUE.name]), ([Color.BLUE.name], [_spec(Color.BLUE)])):
+      cases.append({'kind': 'M', 'dim': True, 'transform': tr,
+                    'ops': [['D', first, 1], ['D', second, 2], ['D', [2], 3], ['R'], ['D', second, 4], ['R'], ['D', first, 5], ['R'], ['V'], ['R']]})
   for i in range(1200 if tier == 'quick' else 15000):
     r = rng.derive(i)
     dim = r.random() < 0.6
